@@ -70,7 +70,7 @@ def enum_trials() -> list:
     for fam in ENUM_FAMILIES:
         for m in range(1, 5):
             for k in range(m):
-                for kind in range(3):
+                for kind in (0, 1, 2, 4, 6):  # 4 / 6: an element of the wrong type (not a node / not a value)
                     for io in ((0, 1) if fam.startswith("io_") else (0,)):
                         for safe in ((0, 1) if fam == "remove" else (0,)):
                             # d bits: bit0 prefer-valid, bits1-2 m-1, (d>>3)%3==0 plant, bits5.. k, bits7.. kind
